@@ -27,8 +27,12 @@ func runC08(r *Run, verifDir string) {
 	c08K4OneResponse(r)
 	c08K5InvalidMessage(r)
 	c.k6Releasable()
+	r.Rule("C08.K10", "the read and write loops tear the connection down on every stream-error exit", 2)
+	c.kLoopErrorExits("C08.K10")
 	c08K7AcceptLoop(r)
 	c08K8NilItems(r)
+	c08K9RequestsOnly(r)
+	c08K3RecoveredError(r, "C08.K3")
 }
 
 // ---------------------------------------------------------------- K3
@@ -1171,5 +1175,178 @@ func c08K8NilItems(r *Run) {
 	}
 	if nObl == 0 {
 		r.Unk("C08.K8", "kmipserver/unguarded-derefs", token.NoPos, "no pointer result dereferenced without a nil test found: the batch-item chain was not recognised")
+	}
+}
+
+// ---------------------------------------------------------------- K9 / K3b
+
+// c08K9RequestsOnly: the server's read loop hands a message to the connection loop only when it is a request (or an
+// encoding error): the assertion to *RequestMessage is comma-ok and its failure edge, when no error is pending, does not
+// reach the hand-off. (A well-formed *response* sent by a client would otherwise arrive as a nil request, which the
+// handler dereferences on the connection goroutine.)
+func c08K9RequestsOnly(r *Run) {
+	p := r.P
+	r.Rule("C08.K9", "the read loop forwards only request messages: a decodable message of another kind never reaches the handler as a nil request", 1)
+	rl := p.Func("kmipserver", "conn", "readloop")
+	key := "kmipserver.conn.readloop/requests-only"
+	if rl == nil {
+		r.Unk("C08.K9", key, token.NoPos, "anchor missing")
+		return
+	}
+	var ta *ssa.TypeAssert
+	var sendBlocks []*ssa.BasicBlock
+	allInstrs(rl, func(in ssa.Instruction) {
+		switch x := in.(type) {
+		case *ssa.TypeAssert:
+			if typeName(x.AssertedType) == "RequestMessage" {
+				ta = x
+			}
+		case *ssa.Send:
+			sendBlocks = append(sendBlocks, x.Block())
+		case *ssa.Select:
+			for _, st := range x.States {
+				if st.Dir == types.SendOnly {
+					sendBlocks = append(sendBlocks, x.Block())
+				}
+			}
+		}
+	})
+	switch {
+	case ta == nil || len(sendBlocks) == 0:
+		r.Unk("C08.K9", key, rl.Pos(), "assertion to *RequestMessage or hand-off not found in the read loop")
+		return
+	case !ta.CommaOk:
+		r.OK("C08.K9", key, ta.Pos(), "the assertion is not comma-ok: a message of another kind cannot be forwarded (C02 covers the panic side)")
+		return
+	}
+	var okVal ssa.Value
+	for _, ref := range *ta.Referrers() {
+		if ex, ok := ref.(*ssa.Extract); ok && ex.Index == 1 {
+			okVal = ex
+		}
+	}
+	tested := false
+	leak := false
+	if okVal != nil {
+		for _, ref := range *okVal.Referrers() {
+			iff, isIf := ref.(*ssa.If)
+			if !isIf {
+				continue
+			}
+			tested = true
+			// from the !ok edge the hand-off must not be reachable without going round the loop (through Recv)
+			start := iff.Block().Succs[1]
+			seen := map[*ssa.BasicBlock]bool{}
+			var walk func(b *ssa.BasicBlock)
+			walk = func(b *ssa.BasicBlock) {
+				if seen[b] || b == ta.Block() {
+					return
+				}
+				seen[b] = true
+				for _, sb := range sendBlocks {
+					if b == sb {
+						leak = true
+					}
+				}
+				for _, s := range b.Succs {
+					walk(s)
+				}
+			}
+			walk(start)
+		}
+	}
+	switch {
+	case !tested:
+		r.Bad("C08.K9", key, ta.Pos(), "the read loop ignores whether the received message is a request: a well-formed response message sent by a client is forwarded as a nil request, which the request handler dereferences on the connection goroutine (no recover there: the process exits)")
+	case leak:
+		r.Bad("C08.K9", key, ta.Pos(), "a message that is not a request can still reach the hand-off to the connection loop")
+	default:
+		r.OK("C08.K9", key, ta.Pos(), "a decodable message that is not a request is dropped before the hand-off")
+	}
+}
+
+// c08K3RecoveredError: the deferred recover that protects the operation handlers maps EVERY recovered value to a non-nil
+// error before handing it to handleBatchItemError (which returns at once on a nil error, leaving the item reported as a
+// success and the batch running on).
+func c08K3RecoveredError(r *Run, rule string) {
+	p := r.P
+	n := 0
+	for _, fn := range pkgFuncs(p, "kmipserver") {
+		hasRecover := false
+		allInstrs(fn, func(in ssa.Instruction) {
+			if c, ok := in.(*ssa.Call); ok {
+				if b, ok := c.Call.Value.(*ssa.Builtin); ok && b.Name() == "recover" {
+					hasRecover = true
+				}
+			}
+		})
+		if !hasRecover {
+			continue
+		}
+		allInstrs(fn, func(in ssa.Instruction) {
+			c, ok := in.(*ssa.Call)
+			if !ok || !strings.HasSuffix(resolvedCallID(&c.Call, 0).name, "handleBatchItemError") {
+				return
+			}
+			n++
+			key := fnKey(fn) + "/recovered-error-non-nil"
+			errArg := c.Call.Args[len(c.Call.Args)-1]
+			var mayNil func(v ssa.Value, d int) bool
+			mayNil = func(v ssa.Value, d int) bool {
+				if d > 6 {
+					return true
+				}
+				switch x := v.(type) {
+				case *ssa.Const:
+					return x.IsNil()
+				case *ssa.Phi:
+					for _, e := range x.Edges {
+						if e != v && mayNil(e, d+1) {
+							return true
+						}
+					}
+					return false
+				case *ssa.Call:
+					id := callID(&x.Call)
+					return !(id.is("errors", "", "New") || id.is("fmt", "", "Errorf") || id.is(srvPath, "", "Errorf"))
+				case *ssa.MakeInterface:
+					return false
+				case *ssa.TypeAssert:
+					return false // a value asserted out of a non-nil interface on its matching case
+				case *ssa.Extract:
+					if ta, ok := x.Tuple.(*ssa.TypeAssert); ok && x.Index == 0 {
+						_ = ta
+						return false
+					}
+					return true
+				case *ssa.ChangeInterface:
+					return mayNil(x.X, d+1)
+				case *ssa.UnOp:
+					// a local cell: every store into it
+					if al, ok := x.X.(*ssa.Alloc); ok {
+						stores := 0
+						for _, ref := range *al.Referrers() {
+							if st, ok := ref.(*ssa.Store); ok && st.Addr == ssa.Value(al) {
+								stores++
+								if mayNil(st.Val, d+1) {
+									return true
+								}
+							}
+						}
+						return stores == 0
+					}
+					return true
+				}
+				return true
+			}
+			if mayNil(errArg, 0) {
+				r.Bad(rule, key, c.Pos(), "%s can hand a nil error to handleBatchItemError for a recovered panic (a panic value of a kind the type switch does not cover): the item is then reported as a success and, under the Stop option, the batch goes on", fnKey(fn))
+			} else {
+				r.OK(rule, key, c.Pos(), "every recovered value is turned into a non-nil error")
+			}
+		})
+	}
+	if n == 0 {
+		r.Unk(rule, "kmipserver/recovered-error", token.NoPos, "no recover() closure calling handleBatchItemError found")
 	}
 }
